@@ -81,7 +81,7 @@ contract("harness_loct:entry_kept", props=["C08"], mode="int", spec_module="spec
 contract(f"{LT_}:LocationTableEntry.__init__", props=["C08", "C06"], shapes={"self": ENTRY, "mib": MIB},
          requires=["mib.itsGnDPLLength >= 1"], modifies=["self.*"], frame_check=False,
          ensures={"not_neighbour": "not self.is_neighbour and not self.ls_pending",
-                  "no_position_yet": "self.position_vector.tst.msec == 0 and self.tst.msec == 0 and self.pdr == 0",
+                  "no_position_yet": "self.position_vector.tst.msec == 0 and self.tst.msec == 0 and self.pdr == 0 and all_zero_addr(self.position_vector.gn_addr)",
                   "empty_duplicate_list": "dq_len(self.dpl_deque) == 0 and dq_maxlen(self.dpl_deque) == mib.itsGnDPLLength and forall(lambda x: not set_has(self.dpl_set, x))",
                   "mib": "self.mib == mib"}, **S)
 
@@ -121,3 +121,11 @@ _multi_hop("new_gac_packet", "gbc_extended_header", T.rec(f"{GBCH}:GBCExtendedHe
 _multi_hop("new_guc_packet", "guc_extended_header", T.rec(f"{GUCH}:GUCExtendedHeader", so_pv=PVS, de_pv=SPV, sn=T.int(0, 65535)))
 _multi_hop("new_ls_request_packet", "ls_request_header", T.rec(f"{LSH}:LSRequestExtendedHeader", so_pv=PVS, request_gn_addr=GNADDR, sn=T.int(0, 65535)))
 _multi_hop("new_ls_reply_packet", "ls_reply_header", T.rec(f"{LSH}:LSReplyExtendedHeader", so_pv=PVS, de_pv=SPV, sn=T.int(0, 65535)))
+
+# a placeholder created while a location-service lookup is pending must not look like a learnt position vector
+contract(f"{LT_}:LocationTable.ensure_entry", props=["C01", "C08"], shapes={"self": LOCT, "gn_address": GNADDR},
+         requires=["self.mib.itsGnDPLLength >= 1", "gn_key_eq(K0(self), gn_address)"], modifies=["self.loc_t"], frame_check=False,
+         ensures={"an_existing_entry_is_returned_untouched": "implies(old(map_has(self.loc_t, K0(self))), result is old(map_get(self.loc_t, K0(self))))",
+                  "the_entry_is_in_the_table_afterwards": "map_has(self.loc_t, gn_address) and map_get(self.loc_t, gn_address) is result",
+                  "a_new_entry_is_a_placeholder_without_position_vector": "implies(not old(map_has(self.loc_t, K0(self))), not result.is_neighbour and not result.ls_pending and result.position_vector.tst.msec == 0 and all_zero_addr(result.position_vector.gn_addr))"},
+         cover=["old(map_has(self.loc_t, K0(self)))", "not old(map_has(self.loc_t, K0(self)))"], **S)
